@@ -445,6 +445,10 @@ def query_term(a):
             args.append(Var("_G%d" % n[0]))
         elif x in VARSET:
             args.append(Var(x))
+        elif re.fullmatch(r"-?[0-9]+", x):
+            args.append(Constant(int(x)))       # numeric constants of the shared generator ("1", "2.5")
+        elif re.fullmatch(r"-?[0-9]+\.[0-9]+", x):
+            args.append(Constant(float(x)))
         else:
             args.append(Term(x))
     return Term(a[0], *args)
